@@ -31,7 +31,9 @@ fn c17c_lzma2_memory_usage() {
     kani::cover!(d >= 0xFFFF_FFF1, "rounding region at the top");
 }
 
-fn lzma2_on<const N: usize>(src: Src<N>, need_props: bool, need_dict_reset: bool) -> LZMA2Reader<Src<N>> {
+// the source is kept OUTSIDE the reader (a source embedded in the ~30 KB reader struct makes every read at a symbolic
+// position a whole-struct byte operation for CBMC)
+fn lzma2_on<'a, const N: usize>(src: &'a mut Src<N>, need_props: bool, need_dict_reset: bool) -> LZMA2Reader<&'a mut Src<N>> {
     let mut r = LZMA2Reader::new(src, 4096, None);
     r.need_props = need_props;
     r.need_dict_reset = need_dict_reset;
@@ -85,12 +87,12 @@ fn model_chunk(b: &[u8; 12], need_props: bool, need_dict_reset: bool) -> (bool, 
 #[kani::unwind(14)]
 #[kani::stub(crate::decoder::LZMADecoder::new, crate::decoder::verif_stubs_dec::verif_havoc_decoder)]
 fn c06a_lzma2_chunk_header_any12() {
-    let src = Src::<12>::any();
+    let mut src = Src::<12>::any();
     let b = src.buf;
     let n = src.len;
     let need_props: bool = kani::any();
     let need_dict_reset: bool = kani::any();
-    let mut r = lzma2_on(src, need_props, need_dict_reset);
+    let mut r = lzma2_on(&mut src, need_props, need_dict_reset);
     let res = r.decode_chunk_header();
     let (ok, is_lzma, un, co, hl) = model_chunk(&b, need_props, need_dict_reset);
     let consumed = r.inner.pos;
@@ -152,7 +154,8 @@ fn c05b_lzma2_truncated_chunk() {
     buf[6] = 0;
     let len: usize = kani::any();
     kani::assume(len < 6 + co);
-    let mut r = lzma2_on(Src::<18>::new(buf, len), true, true);
+    let mut src1 = Src::<18>::new(buf, len);
+    let mut r = lzma2_on(&mut src1, true, true);
     let res = r.decode_chunk_header();
     assert!(res.is_err(), "C05-B: truncated LZMA2 chunk accepted");
     assert!(is_eof(&res.unwrap_err()), "C05-B: truncation must surface as unexpected EOF");
@@ -169,10 +172,47 @@ fn c05b_lzma2_truncated_chunk() {
     raw[2] = (un - 1) as u8;
     let rlen: usize = kani::any();
     kani::assume(rlen >= 3 && rlen < 3 + un);
-    let mut r2 = lzma2_on(Src::<11>::new(raw, rlen), true, true);
+    let mut src2 = Src::<11>::new(raw, rlen);
+    let mut r2 = lzma2_on(&mut src2, true, true);
     assert!(r2.decode_chunk_header().is_ok());
     let res2 = r2.lz.copy_uncompressed(&mut r2.inner, un);
     assert!(res2.is_err() && is_eof(&res2.unwrap_err()), "C05-B: truncated raw chunk payload accepted");
     kani::cover!(rlen == 3 + 7, "raw payload one byte short");
     core::mem::forget(r2);
+}
+
+/// Cheap stand-in for LZMADecoder::reset (the real one is ~2000 `fill` iterations): resets what the harness observes.
+fn verif_reset_marker(d: &mut crate::decoder::LZMADecoder) {
+    verif_set_state(d, 0, [0; 4]);
+}
+
+// C01-E / C03: chunk control bytes 0xA0..=0xBF ("state reset") must reset the coder state of the existing decoder;
+// 0x80..=0x9F must leave it alone (liblzma emits 0xA0 after a stored chunk: skipping the reset desynchronises).
+//@ {"name":"c01e_lzma2_reader_state_reset","props":["C01","C03"],"obligation":"C01-E","timeout":1500,"mem_gb":9,"functions":["lzma2_reader::LZMA2Reader::decode_chunk_header"],"bounds":"control byte any value in 0x80..=0xBF, size bytes arbitrary, 5-byte payload; existing decoder in state 5 with non-zero reps; unwind 14","assumes":["LZMADecoder::reset replaced by a marker that resets (state, reps) only"],"stubs":["LZMADecoder::reset -> verif_reset_marker","LZMADecoder::new -> verif_havoc_decoder"]}
+#[kani::proof]
+#[kani::unwind(14)]
+#[kani::stub(crate::decoder::LZMADecoder::new, crate::decoder::verif_stubs_dec::verif_havoc_decoder)]
+#[kani::stub(crate::decoder::LZMADecoder::reset, verif_reset_marker)]
+fn c01e_lzma2_reader_state_reset() {
+    let mut b: [u8; 12] = kani::any();
+    kani::assume(b[0] >= 0x80 && b[0] <= 0xBF);
+    b[3] = 0;
+    b[4] = 4; // compressed size 5
+    b[5] = 0; // first payload byte
+    let mut src = Src::<12>::full(b);
+    let mut r = lzma2_on(&mut src, false, false);
+    let mut d = verif_havoc_decoder(0, 0, 0);
+    verif_set_state(&mut d, 5, [1, 2, 3, 4]);
+    r.lzma = Some(d);
+    let res = r.decode_chunk_header();
+    assert!(res.is_ok());
+    let (st, reps) = verif_get_state(r.lzma.as_ref().unwrap());
+    if b[0] >= 0xA0 {
+        assert!(st == 0 && reps == [0; 4], "C01-E: state-reset chunk did not reset the coder state");
+    } else {
+        assert!(st == 5 && reps == [1, 2, 3, 4], "C01-E: chunk without reset disturbed the coder state");
+    }
+    kani::cover!(b[0] == 0xA0, "exactly 0xA0");
+    kani::cover!(b[0] < 0xA0, "no reset");
+    core::mem::forget(r);
 }
